@@ -567,6 +567,109 @@ func runScanShape(m *model.Model, s *ob.Set) {
 	}
 	s.Check(gate, R, "dec.scan/sepGate", m.Pos(dscan.Pos()), "'_' accepted only when base == 0", "dec.scan no longer gates '_' by base == 0 (the exponent scanner still does): the two scanners disagree")
 
+	// (1b) the exponent field is parsed as a 64-bit integer: scan adds mantissa-length and
+	// fraction-digit corrections to it in int64 BEFORE the [MinExp, MaxExp] test, so literals whose
+	// exponent field alone lies outside int32 (0e2147483648, 0.001e2147483649, what fmtE writes for
+	// x.exp == MinExp) are in the accepted language
+	if se := m.TryLookup("scanExponent"); se != nil {
+		found, bad := 0, ""
+		for _, b := range se.Blocks {
+			for _, in := range b.Instrs {
+				cal, c := model.Callee(in)
+				if cal == nil || cal.Pkg == nil || cal.Pkg.Pkg.Path() != "strconv" {
+					continue
+				}
+				switch cal.Name() {
+				case "ParseInt":
+					found++
+					if k, ok := model.ConstInt(c.Args[2]); !ok || k != 64 {
+						bad = m.InstrPos(in) + ": strconv.ParseInt is called with a bit size other than 64"
+					}
+				case "Atoi", "ParseUint":
+					found++
+					bad = m.InstrPos(in) + ": the exponent is parsed with strconv." + cal.Name() + " (int-sized or unsigned), not as a signed 64-bit integer"
+				}
+			}
+		}
+		if found == 0 {
+			s.Note(R, "scanExponent/exp-bits", m.Pos(se.Pos()), "no strconv integer parser found in scanExponent (hand-written accumulation is not decided here)")
+		} else {
+			s.Check(bad == "", R, "scanExponent/exp-bits", m.Pos(se.Pos()), "the exponent field is parsed as a signed 64-bit integer", bad+": exponent fields beyond int32 that still denote an in-range (or zero) value are rejected")
+		}
+	}
+	// (1c) guard digits of the 2**n scale factor: a power of two with more digits than the
+	// receiver's precision is inexact, and multiplying by a factor rounded to exactly the
+	// receiver's precision rounds the result twice. Every temporary Decimal that scan/pow2 create
+	// with a precision derived from the receiver's must get strictly more (prec + positive constant).
+	for _, fname := range []string{"(*Decimal).scan", "(*Decimal).pow2"} {
+		fn := m.TryLookup(fname)
+		if fn == nil {
+			continue
+		}
+		setPrec := m.Lookup("(*Decimal).SetPrec")
+		n, bad := 0, ""
+		var fromPrec func(v ssa.Value, d int) bool
+		fromPrec = func(v ssa.Value, d int) bool {
+			if d == 0 {
+				return false
+			}
+			switch x := stripConv(v).(type) {
+			case *ssa.Call:
+				if c2 := x.Call.StaticCallee(); c2 != nil && m.FuncName(c2) == "(*Decimal).Prec" {
+					return true
+				}
+			case *ssa.UnOp:
+				if lf, ok := m.LoadOfDecField(x); ok && lf.Field == m.F.Prec {
+					return true
+				}
+			case *ssa.Phi:
+				for _, e := range x.Edges {
+					if fromPrec(e, d-1) {
+						return true
+					}
+				}
+			}
+			return false
+		}
+		for _, b := range fn.Blocks {
+			for _, in := range b.Instrs {
+				cal, c := model.Callee(in)
+				if cal != setPrec || len(c.Args) < 2 {
+					continue
+				}
+				if r := m.RefOf(c.Args[0]); !r.Fresh || r.Params != 0 {
+					continue // not a temporary
+				}
+				arg := stripConv(c.Args[1])
+				guarded := false
+				derived := fromPrec(arg, 4)
+				if bo, ok := arg.(*ssa.BinOp); ok && bo.Op == token.ADD {
+					for _, pr := range [][2]ssa.Value{{bo.X, bo.Y}, {bo.Y, bo.X}} {
+						if fromPrec(pr[0], 4) {
+							derived = true
+							if k, ok := model.ConstInt(pr[1]); ok && k > 0 {
+								guarded = true
+							}
+						}
+					}
+				}
+				if !derived {
+					continue
+				}
+				n++
+				if !guarded {
+					bad = m.InstrPos(in) + ": a temporary gets exactly the receiver's precision"
+				}
+			}
+		}
+		c := fname + "/guard-digits"
+		if n == 0 {
+			s.Note(R, c, m.Pos(fn.Pos()), "no temporary with a precision derived from the receiver's")
+		} else {
+			s.Check(bad == "", R, c, m.Pos(fn.Pos()), fmt.Sprintf("%d temporar(ies) with precision = receiver's + a positive constant", n), bad+" (no guard digits): the inexact scale factor 2**n is rounded to the same number of digits as the final result, i.e. the result is rounded twice")
+		}
+	}
+
 	// (2) RADIXBITS
 	if bval == nil {
 		model.Fatal("SCANSHAPE: result b of dec.scan not found in (*Decimal).scan")
@@ -733,6 +836,16 @@ func runFmtShape(m *model.Model, s *ob.Set) {
 			}
 		}
 		s.Check(okMode, R, "(*Decimal).Append/TMPMODE", m.InstrPos(setCall), "the copy rounds under x.mode", "the rounding copy in Append is not given x's rounding mode: digits would always be rounded ToNearestEven")
+		// STALE: nothing read from the unrounded x may be used once x has been replaced by its
+		// rounded copy (rounding can carry into a new leading digit: the exponent and the digit
+		// count change). Values computed before the merge may reach code after it only through
+		// the merge's φs, and on the edge that comes from the copying block only if they were
+		// recomputed from the copy.
+		if why := fmtStale(m, app, setCall); why != "" {
+			s.Bad(R, "(*Decimal).Append/stale-after-round", m.InstrPos(setCall), why)
+		} else {
+			s.Ok(R, "(*Decimal).Append/stale-after-round", m.InstrPos(setCall), "no value read from the unrounded operand is used after the rounding copy replaced it")
+		}
 		// SHORTEST: only for prec >= 0
 		okGuard := false
 		for _, b := range app.Blocks {
@@ -1011,4 +1124,113 @@ func nonNeg(m *model.Model, v ssa.Value, at ssa.Instruction, depth int) bool {
 		return true
 	}
 	return false
+}
+
+// fmtStale: see the STALE clause of FMTSHAPE. setCall is the (fresh).Set(x) that produces the
+// rounded copy; the merge is the φ that joins the copy with the parameter x.
+func fmtStale(m *model.Model, fn *ssa.Function, setCall *ssa.Call) string {
+	px := ssa.Value(fn.Params[0])
+	var merge *ssa.Phi
+	copyEdge := -1
+	for _, b := range fn.Blocks {
+		for _, in := range b.Instrs {
+			ph, ok := in.(*ssa.Phi)
+			if !ok || !m.IsDecPtr(ph.Type()) {
+				continue
+			}
+			hasParam := false
+			ce := -1
+			for i, e := range ph.Edges {
+				if e == px {
+					hasParam = true
+				}
+				if e == ssa.Value(setCall) {
+					ce = i
+				}
+			}
+			if hasParam && ce >= 0 {
+				merge, copyEdge = ph, ce
+			}
+		}
+	}
+	if merge == nil {
+		return "" // the copy does not replace x (nothing to go stale)
+	}
+	mb := merge.Block()
+	// taint: values derived from the parameter x's value fields before the merge
+	taint := map[ssa.Value]bool{}
+	isSource := func(in ssa.Instruction) bool {
+		switch x := in.(type) {
+		case *ssa.UnOp:
+			if lf, ok := m.LoadOfDecField(x); ok && lf.X == px && (lf.Field == m.F.Exp || lf.Field == m.F.Mant || lf.Field == m.F.Prec) {
+				return true
+			}
+		case *ssa.Call:
+			if cal := x.Call.StaticCallee(); cal != nil && m.IsDecMethod(cal) && len(x.Call.Args) > 0 && x.Call.Args[0] == px {
+				switch cal.Name() {
+				case "MinPrec", "Prec", "MantExp", "BitsExp", "toa":
+					return true
+				}
+			}
+		}
+		return false
+	}
+	for ch := true; ch; {
+		ch = false
+		for _, b := range fn.Blocks {
+			if m.Dominates(mb, b) {
+				continue // at or after the merge: handled below
+			}
+			for _, in := range b.Instrs {
+				v, ok := in.(ssa.Value)
+				if !ok || taint[v] {
+					continue
+				}
+				t := isSource(in)
+				if !t {
+					switch x := in.(type) {
+					case *ssa.BinOp, *ssa.Convert, *ssa.ChangeType, *ssa.Phi:
+						var ops []*ssa.Value
+						for _, o := range x.Operands(ops) {
+							if *o != nil && taint[*o] {
+								t = true
+							}
+						}
+					case *ssa.Call:
+						if b := model.BuiltinName(&x.Call); b == "max" || b == "min" {
+							for _, a := range x.Call.Args {
+								if taint[a] {
+									t = true
+								}
+							}
+						}
+					}
+				}
+				if t {
+					taint[v], ch = true, true
+				}
+			}
+		}
+	}
+	// uses at or after the merge
+	for _, b := range fn.Blocks {
+		if !m.Dominates(mb, b) {
+			continue
+		}
+		for _, in := range b.Instrs {
+			if ph, ok := in.(*ssa.Phi); ok && b == mb {
+				if copyEdge < len(ph.Edges) && taint[ph.Edges[copyEdge]] {
+					return fmt.Sprintf("%s: a value computed from the unrounded operand (its exponent, digit count or mantissa) flows into the code after the rounding copy on the very path that made the copy", m.InstrPos(ph))
+				}
+				continue
+			}
+			var ops []*ssa.Value
+			for _, o := range in.Operands(ops) {
+				if *o != nil && taint[*o] {
+					return fmt.Sprintf("%s: uses a value read from the unrounded operand (exponent / digit count / mantissa) after x was replaced by its rounded copy: when rounding carries into a new leading digit the exponent and digit count of the copy differ", m.InstrPos(in))
+				}
+			}
+		}
+	}
+	return ""
 }
